@@ -22,7 +22,7 @@ RULE = ("bursts of 1..5 uniquely tagged messages routed back-to-back and across 
         "Some scenarios carry a 200 KB message (longer than any write buffer) followed by further messages routed after each completion, also as a 150 KB setBLOBVector to connections that enabled BLOBs. "
         "In addition every script over {route one message, one loop iteration, complete a parked awaitable} up to a bounded length "
         "is executed on a single TCP / client connection, so that routing happens in every one-iteration window around a completion. "
-        "non-trivial = a schedule with at least one choice point that had more than one option, a stalled connection, or a scripted interleaving; "
+        "Ten scenarios route ONE message object three times, updated in between (a progress report); what was routed is recorded as it was when it was routed. non-trivial = a schedule with at least one choice point that had more than one option, a stalled connection, or a scripted interleaving; "
         "distinct = hash(scenario, choice sequence)")
 ASSUMPTIONS = ["thread-pool hand-offs are awaited on the wall clock (bounded; a timeout makes the run inconclusive, never a violation)"]
 REQUIRED_EVENTS = ["sends_of_one_message_object_updated_in_between", "schedules", "choice_points", "outputs_checked", "tcp_scenarios", "tty_scenarios", "client_scenarios", "stalled_connection_runs",
